@@ -24,7 +24,8 @@ const GOWN: f64 = 2.5; // gradient of a quote given as a dual number w.r.t. its 
 pub enum Act {
     /// (quote index, value index) items; form of the new quotes: 0 floats, 1 Duals, 2 Dual2s (own variable)
     Update { items: Vec<(usize, u8)>, form: u8 },
-    /// 0 reversed pair, 1 unquoted pair of known currencies, 2 foreign currency, 3 inconsistent settlement, 4 valid + foreign
+    /// 0 reversed pair, 1 unquoted pair of known currencies, 2 foreign currency, 3 inconsistent settlement, 4 valid + foreign,
+    /// 5 the same pair twice, both with an inconsistent settlement
     BadUpdate(u8),
     SetOrder(u8),
 }
@@ -404,6 +405,7 @@ pub fn apply(m: &Market, st: &St, act: &Act) -> St {
                 }
                 2 => vec![foreign.clone()],
                 3 => vec![FXRate::try_new(CCYS[a0], CCYS[b0], Number::F64(qval(0, 1)), other_sd).unwrap()],
+                5 => vec![FXRate::try_new(CCYS[a0], CCYS[b0], Number::F64(qval(0, 1)), other_sd).unwrap(), FXRate::try_new(CCYS[a0], CCYS[b0], Number::F64(qval(0, 2)), other_sd).unwrap()],
                 _ => vec![mk_rate(m, 0, 1, 0), foreign.clone()],
             };
             (fx.update(list).is_ok(), false)
@@ -507,8 +509,8 @@ pub fn actions_of(m: &Market, nvals: u8) -> Vec<Act> {
             }
         }
     }
-    for k in 0..5u8 {
-        if k == 3 && q == 1 {
+    for k in 0..6u8 {
+        if (k == 3 || k == 5) && q == 1 {
             continue; // a single-quote market stays consistent under a new settlement date
         }
         out.push(Act::BadUpdate(k));
